@@ -405,7 +405,9 @@ InvalidateNode(s, n) ==
                        !.stats.invalidated = @ + 1,
                        !.invLog = Append(@, n)]
       s3 == IF Nec(s2, n)
-            THEN LET a == RemoveChildren(s2, n, Children(s2, n), 1) IN
+            \* (a branch of its own in the code: remembered in the coverage ghost so that histories
+            \*  taking it are not deduplicated against histories that do not)
+            THEN LET a == RemoveChildren([s2 EXCEPT !.cov = @ \cup {"invalidate:necessary"}], n, Children(s2, n), 1) IN
                  IF ~Ok(a) THEN a ELSE
                  IF ~ScopeAlive(a, n) THEN Fail(a, "panic:unwrap_scope")
                  ELSE SetHeight(a, n, ScopeHeight(a, n) + 1)
